@@ -50,7 +50,7 @@ def payloads(tier):
         add("then-only", pre, ["def c := True", "if c then", "    def v: Int := 1"] + u, False, t, 3)
         add("then-only-with-else", pre, ["def c := True", "if c then", "    def v: Int := 1", "else", '    print("e")'] + u, False, t, 5)
         add("earlier-match-arm-definition", pre, ["def m := 1", "match m", "    1 =>", "        def v: Int := 1", "    _ =>"] + ctxgen.indent(u, 2), False, t, 5)
-        add("earlier-match-arm-capture", pre, ["def m := 1", "match m", "    v =>", '        print("first")', "    _ =>"] + ctxgen.indent(u, 2), False, t, 5)
+        add("earlier-match-arm-capture", pre, ["def m := 1", "match m", "    v =>", '        print("first")', "    _ =>"] + ctxgen.indent(u, 2), False, t + ["faults:2"], 5)   # (an arm after a capture is refused as unreachable as well)
         add("earlier-handle-arm-definition", ["def idi(x: Int) -> Int => x", "class HE(msg: Str): Exception(msg)", "class HF(msg: Str): Exception(msg)", "def hr(n: Int) -> Int raise [HE, HF] => n"],
             ["hr(1) handle", "    he: HE =>", "        def v: Int := 1", "    hf: HF =>"] + ctxgen.indent(u, 2), False, t, 4)
         add("else-only", pre, ["def c := True", "if c then", '    print("t")', "else", "    def v: Int := 1"] + u, False, t, 5)
